@@ -247,3 +247,293 @@ func c10MainFacts() (*c10Facts, error) {
 	}
 	return facts, nil
 }
+
+// ---------------------------------------------------------------------------------------------
+// Facts about the ingest pipeline and main's shutdown sequence (go/ast): whether everything that can
+// announce a registration runs inside a goroutine the wait groups count, so that `cancel(); wg.Wait()`
+// in main returns only after the last announcement of the pipeline — the premise of "the clear request
+// is the last message" (CJ.Props.C10.shutdown_leaves_nothing).
+
+type c10PipeFacts struct {
+	// `go` statements in startIngestThread / ingestRegistration (and in function literals inside them)
+	// under which a registration is ingested, tracked, validated or announced: "<function>: go <callee>"
+	asyncIngestCalls []string
+	// HandleRegUpdates: first statement `defer <parent wait group>.Done()`, every `go …startIngestThread(…, W)`
+	// directly preceded by `W.Add(1)`, last statement `W.Wait()`; startIngestThread: top-level `defer <its wait
+	// group>.Done()`, and it calls ingestRegistration; ingestRegistration calls AddRegistration
+	workersCounted bool
+	// main: `W.Add(1)` directly before the top-level `go X.HandleRegUpdates(ctx, …, W)`; after it, as top-level
+	// statements in this order: a call of the cancel function of ctx, then `W.Wait()`
+	mainWaitsForPipeline bool
+	why                  []string // what was not found, for the failure message of the theorem
+}
+
+var c10AnnouncingCalls = map[string]bool{"ingestRegistration": true, "AddRegistration": true, "TrackRegistration": true,
+	"TrackRegIfNotExists": true, "register": true, "registerForDetector": true, "sendToDetector": true}
+
+func c10CalleeName(call *ast.CallExpr) string {
+	switch fn := call.Fun.(type) {
+	case *ast.SelectorExpr:
+		return fn.Sel.Name
+	case *ast.Ident:
+		return fn.Name
+	}
+	return ""
+}
+
+func c10IsCall(st ast.Stmt, recv, name string) bool {
+	es, ok := st.(*ast.ExprStmt)
+	if !ok {
+		return false
+	}
+	call, ok := es.X.(*ast.CallExpr)
+	if !ok {
+		return false
+	}
+	sel, ok := call.Fun.(*ast.SelectorExpr)
+	if !ok || sel.Sel.Name != name {
+		return false
+	}
+	id, ok := sel.X.(*ast.Ident)
+	return ok && id.Name == recv
+}
+
+func c10PipelineFacts() (*c10PipeFacts, error) {
+	fset := token.NewFileSet()
+	libDir := filepath.Join(c10RepoRoot(), "pkg", "station", "lib")
+	ents, err := os.ReadDir(libDir)
+	if err != nil {
+		return nil, err
+	}
+	fns := map[string]*ast.FuncDecl{}
+	for _, e := range ents {
+		n := e.Name()
+		if e.IsDir() || !strings.HasSuffix(n, ".go") || strings.HasSuffix(n, "_test.go") {
+			continue
+		}
+		f, err := parser.ParseFile(fset, filepath.Join(libDir, n), nil, 0)
+		if err != nil {
+			return nil, err
+		}
+		for _, d := range f.Decls {
+			if fd, ok := d.(*ast.FuncDecl); ok && fd.Body != nil {
+				switch fd.Name.Name {
+				case "HandleRegUpdates", "startIngestThread", "ingestRegistration":
+					if fd.Recv != nil {
+						fns[fd.Name.Name] = fd
+					}
+				}
+			}
+		}
+	}
+	for _, n := range []string{"HandleRegUpdates", "startIngestThread", "ingestRegistration"} {
+		if fns[n] == nil {
+			return nil, fmt.Errorf("pkg/station/lib: method %s not found", n)
+		}
+	}
+	pf := &c10PipeFacts{}
+	no := func(format string, a ...interface{}) { pf.why = append(pf.why, fmt.Sprintf(format, a...)) }
+	wgParam := func(fd *ast.FuncDecl) string { // name of the *sync.WaitGroup parameter
+		for _, fl := range fd.Type.Params.List {
+			if st, ok := fl.Type.(*ast.StarExpr); ok {
+				if sel, ok := st.X.(*ast.SelectorExpr); ok && sel.Sel.Name == "WaitGroup" && len(fl.Names) == 1 {
+					return fl.Names[0].Name
+				}
+			}
+		}
+		return ""
+	}
+	calls := func(n ast.Node, name string, outsideGo bool) bool {
+		found := false
+		ast.Inspect(n, func(m ast.Node) bool {
+			if outsideGo {
+				if _, ok := m.(*ast.GoStmt); ok {
+					return false
+				}
+				if _, ok := m.(*ast.FuncLit); ok {
+					return false
+				}
+			}
+			if call, ok := m.(*ast.CallExpr); ok && c10CalleeName(call) == name {
+				found = true
+			}
+			return !found
+		})
+		return found
+	}
+	// 1. asynchronous ingest calls
+	for _, n := range []string{"startIngestThread", "ingestRegistration"} {
+		ast.Inspect(fns[n].Body, func(m ast.Node) bool {
+			g, ok := m.(*ast.GoStmt)
+			if !ok {
+				return true
+			}
+			ast.Inspect(g, func(x ast.Node) bool {
+				if call, ok := x.(*ast.CallExpr); ok && c10AnnouncingCalls[c10CalleeName(call)] {
+					pf.asyncIngestCalls = append(pf.asyncIngestCalls, n+": go "+c10CalleeName(call))
+				}
+				return true
+			})
+			return false
+		})
+	}
+	sort.Strings(pf.asyncIngestCalls)
+	// 2. the workers are counted and do the ingest themselves
+	ok := true
+	h := fns["HandleRegUpdates"]
+	parent := wgParam(h)
+	if parent == "" || len(h.Body.List) == 0 {
+		ok = false
+		no("HandleRegUpdates has no *sync.WaitGroup parameter")
+	} else {
+		d, isDefer := h.Body.List[0].(*ast.DeferStmt)
+		if !isDefer || c10CalleeName(d.Call) != "Done" || !c10IsCall(&ast.ExprStmt{X: d.Call}, parent, "Done") {
+			ok = false
+			no("HandleRegUpdates does not start with `defer %s.Done()`", parent)
+		}
+	}
+	worker := ""
+	launches := 0
+	ast.Inspect(h.Body, func(m ast.Node) bool {
+		blk, isBlk := m.(*ast.BlockStmt)
+		if !isBlk {
+			return true
+		}
+		for i, st := range blk.List {
+			g, isGo := st.(*ast.GoStmt)
+			if !isGo || c10CalleeName(g.Call) != "startIngestThread" {
+				continue
+			}
+			launches++
+			if len(g.Call.Args) == 0 {
+				ok = false
+				continue
+			}
+			id, isID := g.Call.Args[len(g.Call.Args)-1].(*ast.Ident)
+			if !isID {
+				ok = false
+				no("the wait group handed to startIngestThread is not a plain variable")
+				continue
+			}
+			if worker != "" && worker != id.Name {
+				ok = false
+			}
+			worker = id.Name
+			if i == 0 || !c10IsCall(blk.List[i-1], id.Name, "Add") {
+				ok = false
+				no("`go …startIngestThread(…, %s)` is not directly preceded by `%s.Add(1)`", id.Name, id.Name)
+			}
+		}
+		return true
+	})
+	if launches == 0 {
+		ok = false
+		no("HandleRegUpdates does not launch startIngestThread with a go statement")
+	} else if !c10IsCall(h.Body.List[len(h.Body.List)-1], worker, "Wait") {
+		ok = false
+		no("the last statement of HandleRegUpdates is not `%s.Wait()`", worker)
+	}
+	s := fns["startIngestThread"]
+	swg := wgParam(s)
+	hasDefer := false
+	for _, st := range s.Body.List {
+		if d, isDefer := st.(*ast.DeferStmt); isDefer && c10IsCall(&ast.ExprStmt{X: d.Call}, swg, "Done") {
+			hasDefer = true
+		}
+	}
+	if swg == "" || !hasDefer {
+		ok = false
+		no("startIngestThread has no top-level `defer <wait group>.Done()`")
+	}
+	if !calls(s.Body, "ingestRegistration", false) {
+		ok = false
+		no("startIngestThread does not call ingestRegistration")
+	}
+	if !calls(fns["ingestRegistration"].Body, "AddRegistration", false) {
+		ok = false
+		no("ingestRegistration does not call AddRegistration")
+	}
+	pf.workersCounted = ok
+
+	// 3. main waits for the pipeline before it returns (and thereby runs the deferred Cleanup)
+	mdir := filepath.Join(c10RepoRoot(), "cmd", "application")
+	ments, err := os.ReadDir(mdir)
+	if err != nil {
+		return nil, err
+	}
+	var mainFn *ast.FuncDecl
+	for _, e := range ments {
+		n := e.Name()
+		if e.IsDir() || !strings.HasSuffix(n, ".go") || strings.HasSuffix(n, "_test.go") {
+			continue
+		}
+		f, err := parser.ParseFile(fset, filepath.Join(mdir, n), nil, 0)
+		if err != nil {
+			return nil, err
+		}
+		for _, d := range f.Decls {
+			if fd, isFn := d.(*ast.FuncDecl); isFn && fd.Name.Name == "main" && fd.Recv == nil && f.Name.Name == "main" {
+				mainFn = fd
+			}
+		}
+	}
+	if mainFn == nil || mainFn.Body == nil {
+		return nil, fmt.Errorf("cmd/application: func main not found")
+	}
+	mok := false
+	list := mainFn.Body.List
+	for i, st := range list {
+		g, isGo := st.(*ast.GoStmt)
+		if !isGo || c10CalleeName(g.Call) != "HandleRegUpdates" || len(g.Call.Args) < 2 {
+			continue
+		}
+		ctxID, ok1 := g.Call.Args[0].(*ast.Ident)
+		wgID, ok2 := g.Call.Args[len(g.Call.Args)-1].(*ast.Ident)
+		if !ok1 || !ok2 {
+			no("main: the context / wait group handed to HandleRegUpdates is not a plain variable")
+			continue
+		}
+		if i == 0 || !c10IsCall(list[i-1], wgID.Name, "Add") {
+			no("main: `go …HandleRegUpdates(…, %s)` is not directly preceded by `%s.Add(1)`", wgID.Name, wgID.Name)
+			continue
+		}
+		// the cancel function of that context: `ctx, cancel := context.WithCancel(…)`
+		cancelName := ""
+		for _, st2 := range list[:i] {
+			as, isAs := st2.(*ast.AssignStmt)
+			if !isAs || len(as.Lhs) != 2 || len(as.Rhs) != 1 {
+				continue
+			}
+			call, isCall := as.Rhs[0].(*ast.CallExpr)
+			l0, isID0 := as.Lhs[0].(*ast.Ident)
+			l1, isID1 := as.Lhs[1].(*ast.Ident)
+			if isCall && isID0 && isID1 && l0.Name == ctxID.Name && strings.HasPrefix(c10CalleeName(call), "With") {
+				cancelName = l1.Name
+			}
+		}
+		if cancelName == "" {
+			no("main: no `%s, cancel := context.With…(…)` before HandleRegUpdates is started", ctxID.Name)
+			continue
+		}
+		cancelAt, waitAt := -1, -1
+		for j := i + 1; j < len(list); j++ {
+			if es, isES := list[j].(*ast.ExprStmt); isES {
+				if call, isCall := es.X.(*ast.CallExpr); isCall {
+					if id, isID := call.Fun.(*ast.Ident); isID && id.Name == cancelName && cancelAt < 0 {
+						cancelAt = j
+					}
+				}
+			}
+			if c10IsCall(list[j], wgID.Name, "Wait") && cancelAt >= 0 && waitAt < 0 {
+				waitAt = j
+			}
+		}
+		if cancelAt < 0 || waitAt < 0 {
+			no("main: `%s()` followed by `%s.Wait()` not found as top-level statements after the pipeline is started", cancelName, wgID.Name)
+			continue
+		}
+		mok = true
+	}
+	pf.mainWaitsForPipeline = mok
+	return pf, nil
+}
